@@ -4,47 +4,10 @@
   and by neighbour; the grouping loses and repeats nothing).
 -/
 import Prov.Props.C14B
+import Prov.Lemmas.Perm
 
 namespace Prov.C14
-open Prov Prov.Heap
-
-theorem flatMap_congr' {α β : Type} {f g : α → List β} : ∀ (l : List α), (∀ a ∈ l, f a = g a) → l.flatMap f = l.flatMap g
-  | [], _ => rfl
-  | a :: l, h => by
-    rw [List.flatMap_cons, List.flatMap_cons, h a List.mem_cons_self,
-      flatMap_congr' l (fun b hb => h b (List.mem_cons_of_mem _ hb))]
-
-/-- grouping a list by a key, over a duplicate-free list of keys that covers it, is a permutation of the list -/
-theorem flatMap_filter_perm {α κ : Type} [DecidableEq κ] (key : α → κ) :
-    ∀ (ks : List κ) (out : List α), ks.Nodup → (∀ e ∈ out, key e ∈ ks) →
-      (ks.flatMap (fun t => out.filter (fun e => key e == t))).Perm out
-  | [], out, _, hcov => by
-    cases out with
-    | nil => simp
-    | cons e rest => exact absurd (hcov e List.mem_cons_self) (by simp)
-  | k :: ks, out, hnd, hcov => by
-    obtain ⟨hk, hnd'⟩ := List.nodup_cons.mp hnd
-    rw [List.flatMap_cons]
-    have hrest : ks.flatMap (fun t => out.filter (fun e => key e == t)) =
-        ks.flatMap (fun t => (out.filter (fun e => !(key e == k))).filter (fun e => key e == t)) := by
-      apply flatMap_congr'
-      intro t ht
-      rw [List.filter_filter]
-      apply List.filter_congr
-      intro e _
-      by_cases h1 : key e = t
-      · have : t ≠ k := fun h2 => hk (h2 ▸ ht)
-        simp [h1, this]
-      · simp [h1]
-    rw [hrest]
-    have ih := flatMap_filter_perm key ks (out.filter (fun e => !(key e == k))) hnd' (by
-      intro e he
-      obtain ⟨he1, he2⟩ := List.mem_filter.mp he
-      have := hcov e he1
-      rcases List.mem_cons.mp this with h | h
-      · simp [h] at he2
-      · exact h)
-    exact (List.Perm.append (List.Perm.refl _) ih).trans (List.filter_append_perm (fun e => key e == k) out)
+open Prov Prov.Heap Prov.Perm
 
 /-- neighbours in order of their first edge (networkx adjacency order) -/
 def dedupStep (acc : List Nat) (e : Nat × Nat × Nat) : List Nat := if acc.contains e.2.1 then acc else acc ++ [e.2.1]
@@ -261,13 +224,6 @@ theorem findIdx_of_nodup (pool : List GNode) (hnd : pool.Nodup) (i : Nat) (n : G
   have hj' : pool[j]'(Nat.lt_trans hji hlt) = n := by simpa using hj
   have := (List.getElem_inj (h₀ := Nat.lt_trans hji hlt) (h₁ := hlt) hnd).mp (by rw [hj', hget])
   omega
-
-theorem perm_flatMap_of_perm {α β : Type} {f g : α → List β} :
-    ∀ (l : List α), (∀ a ∈ l, (f a).Perm (g a)) → (l.flatMap f).Perm (l.flatMap g)
-  | [], _ => by simp
-  | a :: l, h => by
-    rw [List.flatMap_cons, List.flatMap_cons]
-    exact List.Perm.append (h a List.mem_cons_self) (perm_flatMap_of_perm l (fun b hb => h b (List.mem_cons_of_mem _ hb)))
 
 /-- **the way back loses and repeats no edge**: the relations handed to the new document for the edges are a permutation
     of the relations of the edges -/
